@@ -27,7 +27,14 @@ pub enum Kind {
     /// `prefolded`: the element base is pushed as the constant keccak(slot) instead of being hashed at run time
     DynArray { prefolded: bool },
     /// fields (bit offset, bit width), non-overlapping, byte aligned
-    Packed { fields: Vec<(usize, usize)>, use_shifts: bool },
+    /// whole: 0 = every field is written by its own read-modify-write; 1 / 2 = all fields are written by one
+    /// store of f0 | f1<<o1 | ... with the OR chain nested to the right / to the left
+    Packed {
+        fields: Vec<(usize, usize)>,
+        use_shifts: bool,
+        #[serde(default)]
+        whole: u8,
+    },
 }
 
 #[derive(Clone, Debug, PartialEq, Eq, Serialize, Deserialize)]
@@ -149,10 +156,16 @@ pub fn gen_truth(ch: &mut Chooser, max_vars: usize) -> Truth {
                 }
             }
             7 => Kind::DynArray { prefolded: ch.chance(1, 3) },
-            _ => Kind::Packed {
-                fields: gen_fields(ch),
-                use_shifts: ch.chance(1, 2),
-            },
+            _ => {
+                let fields = gen_fields(ch);
+                let use_shifts = ch.chance(1, 2);
+                let whole = if ch.chance(1, 4) { 1 + ch.below(2) as u8 } else { 0 };
+                Kind::Packed {
+                    fields,
+                    use_shifts,
+                    whole,
+                }
+            }
         };
         let small = matches!(kind, Kind::DynArray { prefolded: true });
         let slot = gen_slot(ch, &used, small);
@@ -261,7 +274,7 @@ fn emit_read(b: &mut B, v: &Var, field: usize) {
             b.emit(asm::SLOAD);
             ret_top(b);
         }
-        Kind::Packed { fields, use_shifts } => {
+        Kind::Packed { fields, use_shifts, .. } => {
             let (o, w) = fields[field % fields.len()];
             b.push(v.slot);
             b.emit(asm::SLOAD);
@@ -308,7 +321,29 @@ fn emit_write(b: &mut B, v: &Var, field: usize) {
             b.emit(asm::SSTORE);
             b.emit(asm::STOP);
         }
-        Kind::Packed { fields, use_shifts } => {
+        Kind::Packed { fields, whole, .. } if *whole != 0 => {
+            // f0 | f1 * 2^o1 | ...: every field from its own argument
+            for (i, (o, w)) in fields.iter().enumerate() {
+                arg(b, i, false);
+                b.push(mask(*w));
+                b.emit(asm::AND);
+                if *o > 0 {
+                    b.push(W::pow2(*o as u32));
+                    b.emit(asm::MUL);
+                }
+                if i > 0 {
+                    // OR records (top, next): without the swap the accumulated chain is the right operand
+                    if *whole == 2 {
+                        b.emit(asm::SWAP1);
+                    }
+                    b.emit(asm::OR);
+                }
+            }
+            b.push(v.slot);
+            b.emit(asm::SSTORE);
+            b.emit(asm::STOP);
+        }
+        Kind::Packed { fields, use_shifts, .. } => {
             let (o, w) = fields[field % fields.len()];
             // (value & mask) * 2^o
             arg(b, 0, false);
@@ -344,9 +379,9 @@ pub struct Branch {
 pub fn branches(t: &Truth) -> Vec<Branch> {
     let mut out = vec![];
     for (i, v) in t.vars.iter().enumerate() {
-        let nfields = match &v.kind {
-            Kind::Packed { fields, .. } => fields.len(),
-            _ => 1,
+        let (nfields, whole) = match &v.kind {
+            Kind::Packed { fields, whole, .. } => (fields.len(), *whole != 0),
+            _ => (1, false),
         };
         for f in 0..nfields {
             if v.read {
@@ -356,7 +391,7 @@ pub fn branches(t: &Truth) -> Vec<Branch> {
                     field: f,
                 });
             }
-            if v.write {
+            if v.write && (!whole || f == 0) {
                 out.push(Branch {
                     var:   i,
                     write: true,
